@@ -9,11 +9,20 @@
    order in which input bits were tried by the widening loop), and
    `restrict` (any family of functions meeting the contract of
    dd.cudd.restrict: agrees with its argument on the care set, introduces no
-   variable).  The branch `_bdd is None` is the instance [no_restrict]. *)
+   variable).  The branch `_bdd is None` is the instance [no_restrict].
+
+   Tie T: gen/FunctionsGen.v is regenerated from the current source of
+   functions.py on every run (tools/py2coq_fn.py) and
+   GenProofs/FunctionsBridge.v proves the generated extract_function /
+   make_functions EQUAL to the model (C14_model_is_translated_code below);
+   the C14_translated_* theorems restate the main results about the
+   generated definitions. *)
 From Coq Require Import List Bool Arith Lia.
 Import ListNotations.
 From Omega Require Import L7Codegen.Pred L7Codegen.PredFacts L7Codegen.Synth
   L7Codegen.SynthProofs.
+From OmegaGen Require FunctionsGen.
+From OmegaGP Require Import FunctionsBridge.
 
 Section C14.
 Variable n : nat.
@@ -103,7 +112,61 @@ Proof.
   exact (asserts_hold n restrict restrict_adds_no_variable).
 Qed.
 
+(* --- the same, about the code translated from functions.py -------------- *)
+Theorem C14_translated_functions_realize : forall r vrs order a,
+  order_ok n r vrs order ->
+  length a = n ->
+  (exists b, agree_out vrs a b /\ r b = true) ->
+  r (apply_functions (FunctionsGen.make_functions n restrict r vrs order) a)
+  = true.
+Proof.
+  exact (translated_functions_realize n restrict restrict_agrees_on_care
+           restrict_adds_no_variable).
+Qed.
+
+Theorem C14_translated_functions_independent : forall r vrs order y g care v,
+  In (y, (g, care)) (FunctionsGen.make_functions n restrict r vrs order) ->
+  In v vrs ->
+  (forall a b, length a = n -> g (upd a v b) = g a) /\
+  (forall a b, length a = n -> care (upd a v b) = care a).
+Proof.
+  exact (translated_functions_independent n restrict
+           restrict_adds_no_variable).
+Qed.
+
+(* the Boolean flag into which the translator turns the `assert`s of
+   make_functions is always true *)
+Theorem C14_translated_assertions_hold : forall r vrs order,
+  FunctionsGen.make_functions_asserts n restrict r vrs order = true.
+Proof.
+  exact (translated_assertions_hold n restrict restrict_adds_no_variable).
+Qed.
+
 End C14.
+
+(* --- tie T: the model is the translated code ------------------------------
+   For every number of bits, every `restrict`, and all arguments (iteration
+   orders included): the Gallina translated from the current functions.py is
+   Leibniz-equal to the model of Synth.v; the flag collecting the translated
+   `assert`s is the model's asserts_ok; the sets the two loops iterate over
+   are the model's inputs_of / outputs_of. *)
+Theorem C14_model_is_translated_code :
+  forall (n : nat) (restrict : var -> pred -> pred -> pred),
+  (forall f yp outputs zs,
+     FunctionsGen.extract_function n restrict f yp outputs zs
+     = Synth.extract_function n restrict f yp outputs zs) /\
+  (forall r vrs order,
+     FunctionsGen.make_functions n restrict r vrs order
+     = Synth.make_functions n restrict r vrs order) /\
+  (forall r vrs order,
+     FunctionsGen.make_functions_asserts n restrict r vrs order
+     = Synth.asserts_ok n restrict r vrs order) /\
+  (forall f yp outputs,
+     filter (FunctionsGen.extract_function_domain_1 n f yp outputs) (seq 0 n)
+     = inputs_of n (cofactors n f yp outputs)) /\
+  (forall r vrs,
+     FunctionsGen.make_functions_domain_1 n r vrs = outputs_of n r vrs).
+Proof. exact model_is_translated_code. Qed.
 
 (* --- the hypotheses are satisfiable -------------------------------------- *)
 (* the branch taken when dd.cudd is absent meets the contract *)
@@ -165,3 +228,7 @@ Print Assumptions C14_result_shape.
 Print Assumptions C14_assertions_hold.
 Print Assumptions C14_functions_realize_no_cudd.
 Print Assumptions C14_functions_realize_single.
+Print Assumptions C14_model_is_translated_code.
+Print Assumptions C14_translated_functions_realize.
+Print Assumptions C14_translated_functions_independent.
+Print Assumptions C14_translated_assertions_hold.
